@@ -197,8 +197,30 @@ func e2eCase(app *fx.App, tr *fx.Trace, r *fx.Rng) {
 	fx.Must(fk.SetParams(ctx, params))
 	tr.Reset(nil)
 	vals := bandtesting.Validators
+	// tie mode: two validators end up with exactly equal bonded tokens (100/1/99 + 1 -> 100/1/100), are both
+	// oracle-active and report at the same second with different prices: the outcome then rests on the order in
+	// which CalculatePrices hands the validators to the median (bonded-power iterator order, a total order)
+	tie := r.Chance(1, 4)
+	if tie {
+		tr.Tag("tied-validators")
+	}
 	// extra delegations to vary the power vector
-	for _, v := range vals {
+	for vi, v := range vals {
+		if tie {
+			if vi == 2 {
+				val, err := sk.GetValidator(ctx, v.ValAddress)
+				fx.Must(err)
+				first, err := sk.GetValidator(ctx, vals[0].ValAddress)
+				fx.Must(err)
+				amt := first.GetTokens().Sub(val.GetTokens())
+				if amt.IsPositive() {
+					app.Fund(ctx, bandtesting.FeePayer.Address, "uband", amt)
+					_, err = sk.Delegate(ctx, bandtesting.FeePayer.Address, amt, stakingtypes.Unbonded, val, true)
+					fx.Must(err)
+				}
+			}
+			continue
+		}
 		if r.Chance(1, 2) {
 			val, err := sk.GetValidator(ctx, v.ValAddress)
 			fx.Must(err)
@@ -210,7 +232,7 @@ func e2eCase(app *fx.App, tr *fx.Trace, r *fx.Rng) {
 	}
 	active := map[int]bool{}
 	for i, v := range vals {
-		if r.Chance(3, 4) {
+		if r.Chance(3, 4) || tie {
 			fx.Must(ok.Activate(ctx, v.ValAddress))
 			active[i] = true
 		}
@@ -245,11 +267,15 @@ func e2eCase(app *fx.App, tr *fx.Trace, r *fx.Rng) {
 				continue
 			}
 			ts := now - f.Interval + int64(r.PickInt(-2, -1, 0, 0, 1, 5)) // around the freshness boundary
-			if r.Chance(1, 3) {
+			if r.Chance(1, 3) || tie {
 				ts = now
 			}
 			st := r.PickInt(0, 1, 2, 3, 3, 3, 3)
 			pr := uint64(r.Range(90, 110))
+			if tie && i != 1 {
+				st = 3
+				pr = uint64(90 + 10*i + r.Range(0, 5))
+			}
 			vps = append(vps, feedstypes.ValidatorPrice{SignalPriceStatus: feedstypes.SignalPriceStatus(st), SignalID: f.SignalID, Price: pr, Timestamp: ts, BlockHeight: 1})
 			pricesOf[i][f.SignalID] = []any{st, fx.U(pr), ts}
 		}
